@@ -136,7 +136,11 @@ func parseRelation(l *lexer, t token) (idempotent bool, err error) {
 			return parseIdentifiersRelation(l)
 		} else {
 			l.rewind()
+			if err = l.enter(); err != nil {
+				return false, err
+			}
 			idempotent, err = parseRelation(l, l.next())
+			l.leave()
 			if !idempotent {
 				return idempotent, err
 			}
